@@ -38,7 +38,12 @@ pub struct CrashCase {
 /// pending and recycled out of order), 2 = "deep queue" (bursts of commits, then bursts of
 /// processing).
 pub fn crash_scenario(max_cols: usize, min_ops: usize, max_ops: usize, multi: bool, big: u32) -> impl Strategy<Value = Scenario> {
-	(mixed_cfg(max_cols, multi), 0u8..4).prop_flat_map(move |(cfg, regime)| {
+	(mixed_cfg(max_cols, multi), prop_oneof![5 => 0u8..4, 1 => Just(4u8)]).prop_flat_map(move |(mut cfg, regime)| {
+		if regime == 4 {
+			// "kept logs": with sync_data = false the library keeps the 16 newest applied log
+			// files on disk and replays them again after a crash
+			cfg.sync_data = false;
+		}
 		// besides small mixed transactions: bulk inserts / deletions of a dense key run in a btree
 		// column (if there is one), so that splits, merges and root changes are what a crash hits
 		let btree_col = cfg.cols.iter().position(|c| c.kind == Kind::Btree && !c.rc).map(|c| c as u8);
@@ -86,6 +91,17 @@ pub fn crash_scenario(max_cols: usize, min_ops: usize, max_ops: usize, multi: bo
 				1 => Just(vec![Op::F]),
 			]
 			.boxed(),
+			// 4 = "kept logs" (sync_data = false): runs of commits with one log file each, so that
+			// more than 16 applied files cycle through the cleanup queue
+			4 => prop_oneof![
+				10 => proptest::collection::vec(commit.clone(), 3..9).prop_map(|cs| cs.into_iter().flat_map(|c| [c, Op::P, Op::F, Op::E]).collect::<Vec<_>>()),
+				3 => commit.prop_map(|c| vec![c, Op::P]),
+				3 => Just(vec![Op::C]),
+				1 => Just(vec![Op::F]),
+				1 => Just(vec![Op::E]),
+				1 => Just(vec![Op::Reopen]),
+			]
+			.boxed(),
 			_ => prop_oneof![
 				6 => proptest::collection::vec(commit, 1..4),
 				4 => proptest::collection::vec(Just(Op::P), 1..4),
@@ -100,7 +116,7 @@ pub fn crash_scenario(max_cols: usize, min_ops: usize, max_ops: usize, multi: bo
 		};
 		proptest::collection::vec(block, min_ops..=max_ops).prop_map(move |blocks| {
 			let mut ops: Vec<Op> = blocks.into_iter().flatten().collect();
-			ops.truncate(max_ops * 2);
+			ops.truncate(if regime == 4 { 140 } else { max_ops * 2 });
 			Scenario { cfg: cfg.clone(), ops }
 		})
 	})
